@@ -353,6 +353,12 @@ def classify(case, impl, failure):
         return "index-behind-alternatives"
     return None
 
+def canon(case, line):
+    """object numbers are compared modulo 2^32: the harness numbers objects in unsigned 32-bit
+    arithmetic, the model in Z (they differ only behind indices of ten and more digits, which no
+    port accepts - seen on a default-handler call)"""
+    return re.sub(r"(?<=/)(\d{10,})(?=/)", lambda m: str(int(m.group(1)) % 4294967296), line)
+
 def nontrivial(case, impl):
     f = case.split(" ")
     t = parse_tree(f[1])
@@ -436,7 +442,9 @@ def gen_names(rng, n, allow_hash, allow_sub, friendly=False, multi=False, high=F
             for _ in range(rng.choice([1, 1, 1, 2])):
                 name += b"/" + component(rng, allow_hash, alts)
         sub = allow_sub and rng.random() < (0.45 if b"/" in name else 0.3)
-        if sub and alt_before_hash(name):                  # see ASSUMPTIONS: such a name is generated as a leaf only
+        if sub and alt_before_hash(name) and rng.random() < 0.85:
+            # see ASSUMPTIONS: such a name is mostly generated as a leaf; now and then as a sub-tree, which
+            # is the known finding index-behind-alternatives (classified, KNOWN-FINDING line)
             sub = False
         if sub:
             name += b"/"
